@@ -70,6 +70,11 @@ CHECKS = {
         text="Options.tla holds the gate table (except* -> 3.11; type parameter lists / type statement -> 3.12) and predicts for every program x verbose {F,T} x py_version {None,(3,8)..(3,13)} point: identical to the default, or a SyntaxError naming the required version (for programs rejected anyway but containing gated syntax: still rejected). Programs: gated features in several positions and combinations, look-alikes (type/match as names), plus samples of the C01 program space (valid and invalid) and harvested xonsh inputs. All grid points of all programs are run (stdout discarded) and validated by TLC.",
         note="Need/validity per program come from CPython's own tree (TryStar, TypeAlias, type_params) when it parses, from the text otherwise. Interpreter 3.12 caps py_version.",
         ref="5/C15"),
+    "C16": dict(
+        technique="TLC model check of the generator state machine (GenPipe.tla) + real generation runs recorded as traces and validated by TLC against GenTrace.tla",
+        text="Design level: GenPipe.tla (to-do queue, helper counter, de-duplication by structure) checked by TLC for OneMethodPerRule, HelperNamesMonotone, DedupIsByStructure, AllRulesEmitted over small abstract grammars. Implementation level: both documented generation steps are run from the working tree under several hash seeds, twice each, and twice within one interpreter; every run is a trace of (method name, normalised-body digest generated, digest shipped, helper number) in emission order plus keyword tables, validated by TLC (one method per rule, helper names monotone, every method equals the shipped one, no extra shipped methods, keyword tables equal, all runs agree with the first).",
+        note="Finite quantifier (two pairs): exhaustive for it. Normalisation: ast.unparse round trip, return/argument annotations and docstrings dropped, imports ignored.",
+        ref="5/C16"),
     "C14": dict(
         technique="TLC enumeration of statement sequences from StmtSeq.tla -> composition law checked on the real parser; tree pairs (whole vs shifted parts) trace-validated by TLC (AstEq.tla)",
         text="StmtSeq.tla lists 55 complete statement forms (Python simple/compound, multi-line tokens, comment/blank lines, every xonsh statement form incl. empty macros and path-literal concatenations); TLC enumerates every sequence of up to 2 (all kinds) / 3 (xonsh-heavy subset) kinds in quick, 3 / 4 in thorough; the body of the concatenation must equal the bodies of the parts with shifted line numbers, positions included.",
